@@ -98,7 +98,19 @@ VCf(ev) ==
   ELSE IF Len(o[2]) # NB(l) THEN "frames:length"
   ELSE Ok(LenLoc(l) <= f0 \/ Uninterrupted(l, o[2], f0), "frames-uninterrupted")
 
-Verdict(ev) == CASE ev[1] = "cds" -> VCds(ev) [] ev[1] = "win" -> VWin(ev) [] ev[1] = "cf" -> VCf(ev)
+(* ["tr1", loc, frames, root, truncate, table, strict, outcome] : one translate() call observed in the repository's own
+   test-suite (passive trace; coordinates re-based to the CDS start) *)
+VTr1(ev) ==
+  LET cds == <<ev[2], ev[3]>> root == ev[4] n == NumCodons(cds) o == ev[8]
+      seq == CodingSeq(cds, root) cs == CodonSeqs(seq) m == TranslatedCount(cs, ev[5]) IN
+  IF ~Claimed(cds) THEN "ok"
+  ELSE IF n = 0 THEN Ok(Rejected(o) \/ (IsVal(o) /\ o[2] = <<>>), "protein:none-expected")
+  ELSE IF \E i \in 1..m : AAOptions(cs[i], i, ev[6], ev[7]) = {} THEN Ok(Rejected(o), "protein:strict-rejects")
+  ELSE IF ~IsVal(o) THEN "protein:returns"
+  ELSE IF Len(o[2]) # m THEN "protein:length"
+  ELSE Ok(\A i \in 1..m : o[2][i] \in AAOptions(cs[i], i, ev[6], ev[7]), "protein")
+
+Verdict(ev) == CASE ev[1] = "tr1" -> VTr1(ev) [] ev[1] = "cds" -> VCds(ev) [] ev[1] = "win" -> VWin(ev) [] ev[1] = "cf" -> VCf(ev)
                  [] OTHER -> "unknown-op"
 Bad == {i \in DOMAIN Trace : Verdict(Trace[i]) # "ok"}
 ASSUME \A i \in Bad : PrintT(<<"BAD", i, Verdict(Trace[i])>>)
